@@ -47,6 +47,8 @@ def stop_observe():
 
 FOLDERS = ["", "a", "a/b", "c", "nested.csv"]
 FILES = ["f1.csv", "f2.csv", "g.csv", "h.csv", "in_1.csv", "in_2.csv", "notes.txt", "k.CSV"]
+# names a folder listing must skip: an office lock file (default pattern) and the start pattern in mid-name
+SKIPPED_FILES = ["~$lock.csv", "old_in_9.csv"]
 
 
 def gen_tree(rng, hostile=False, max_files=6):
@@ -58,7 +60,7 @@ def gen_tree(rng, hostile=False, max_files=6):
     used = set()
     for k in range(nfiles):
         fo = rng.choice(folders)
-        nm = rng.choice(FILES[:6])
+        nm = rng.choice(FILES[:6] + SKIPPED_FILES) if rng.random() < 0.85 else rng.choice(SKIPPED_FILES)
         rel = (fo + "/" + nm) if fo else nm
         if rel in used:
             continue
@@ -236,7 +238,20 @@ def run_load(tree, base, root, cfg):
             trees = [tree_dump(n) for n in forest]
         except Exception as e:
             trees = f"{type(e).__name__}: {e}"[:200]
-    return {"code": code, "exc": exc, "events": events, "issues": issues, "trees": trees, "roots": roots}
+    # the forest must not depend on the order in which the tables are handed over
+    trees_other = {}
+    if tables and code == 0 and len(tables) > 1:
+        from pdtable.io.load import make_location_trees
+
+        orders = {"reversed": tables[::-1], "by-name": sorted(tables, key=lambda t: t.name),
+                  "interleaved": tables[::2] + tables[1::2]}
+        for tag, ts in orders.items():
+            try:
+                trees_other[tag] = [tree_dump(n) for n in make_location_trees(iter(ts))]
+            except Exception as e:
+                trees_other[tag] = f"{type(e).__name__}: {e}"[:200]
+    return {"code": code, "exc": exc, "events": events, "issues": issues, "trees": trees, "trees_other": trees_other,
+            "roots": roots}
 
 
 def tree_dump(node):
